@@ -70,6 +70,26 @@ Scripts ==
 MCInit == \E s \in Scripts : InitWith(s)
 MCSpec == MCInit /\ [][Next]_vars
 
+\* FAULT configuration (MC_Wire_cut.cfg): the connection breaks inside any frame of the script, after any number of its bytes
+\* (Wire!SendCut), under every fragmentation of what the transport took.  Scripts with blocks of 0 / 5 / 19 bytes (cut inside
+\* the 13-byte header, on its last byte, inside the block, one byte before its end), a duplicate request (answered by a
+\* reject, whose cut carries no payload), and frames without payload.
+Cho == [k |-> "choke"]
+CutScripts ==
+    {<<m>> : m \in {P0, P1, P2, KA, Cho}}
+    \cup {<<a, b>> : a \in {P1, Cho}, b \in {P1, P2}}
+    \cup { <<KA, Unk, P1, Cho, P1>> }
+    \cup (IF LEVEL >= 2 THEN {<<m>> : m \in {Hs, XM1, Unk}} \cup {<<a, b>> : a \in {P1, P2, Cho}, b \in {P0, P1, P2, Cho}}
+                              \cup { <<Hs, XH1, [k |-> "have_none"], KA, P1, P1>>,
+                                     <<[k |-> "bitfield", payload |-> <<255>>], XM0, Unk0, P2, KA, P0>>,
+                                     <<KA, KA, [k |-> "unchoke"], Unk, P1, Cho, P1>> }
+          ELSE {})
+MCInitF == \E s \in CutScripts : InitWith(s)
+MCSpecF == MCInitF /\ [][NextF]_vars
+\* the fault is really explored: some run ends with a truncated block whose body bytes were credited (refuted on purpose
+\* by MC_Wire_cut_reach.cfg)
+NoCutCredit == ~(Broken(wr) /\ wr.cut > 13 /\ net = <<>> /\ InBlock(rd) /\ wr.upl > SumPiece(rd.out))
+
 \* the reference codec is injective on the message set (distinct messages never share an encoding)
 ASSUME \A a \in Msgs, b \in Msgs : (a # b) => (Encodings(a) \cap Encodings(b) = {})
 \* one-shot decoding is the inverse of every admissible encoding
